@@ -925,3 +925,85 @@ def lambda_location(run, model, rule="C07.text"):
     src = src_of(fi2.node)
     ok = "inspect.findsource(condition)" in src and "inspect_decorator(" in src and "find_lambda_condition(" in src
     run.check(ok, rule, fi2.qual, "source found for the condition itself; decorator located around its line; lambda picked from that decorator", "the lambda inspection does not go from the condition's own source line to its decorator", fi2.loc())
+
+
+def all_trace(run, model, rule="C06.all-trace"):
+    """The tracing function generated for a failed ``all(<generator>)`` nests the clauses as the generator does.
+
+    The translation works inside-out (each step wraps the block built so far), so the ``for`` clauses and, per clause,
+    its ``if`` filters must be walked in *reverse*; the filters of a clause are wrapped before its ``for``.  Otherwise
+    a later filter runs on items an earlier filter excluded (and may fail), or the loops nest the wrong way round.
+    """
+    fi = model.func("_recompute._translate_all_expression_to_a_module")
+    flow = get_flow(model, fi)
+    run.saw(flow)
+    GEN = ("param", fi.params[0])
+    GENS = ("attr", GEN, "generators")
+    loops = [(h, strip_sites(flow.term(p.ast, p))) for h in flow.cfg.nodes if h.kind == "next" for k, p in h.pred if p.kind == "iter" and p.stmt is h.stmt]
+    # wrapping statements:  N = [ast.X(..., body=N, ...)]
+    wraps = []
+    for n in flow.cfg.nodes:
+        if n.kind == "stmt" and isinstance(n.ast, ast.Assign) and len(n.ast.targets) == 1 and isinstance(n.ast.targets[0], ast.Name):
+            nm = n.ast.targets[0].id
+            for call in ast.walk(n.ast.value):
+                if isinstance(call, ast.Call) and any(kw.arg == "body" and isinstance(kw.value, ast.Name) and kw.value.id == nm for kw in call.keywords):
+                    ct = strip_sites(flow.term(call.func, n))
+                    def flat(t):
+                        if t[0] == "phi":
+                            return [y for x in t[1] for y in flat(x)]
+                        if t[0] == "op" and t[1] == "ifexp":
+                            return flat(t[2][1]) + flat(t[2][2])
+                        return [t]
+
+                    alts = flat(ct)
+                    kinds = set(a[2] if a[0] == "attr" and a[1] == ("module", "ast") else "?" for a in alts)
+                    wraps.append((n, call, kinds))
+    if_wraps = [w for w in wraps if w[2] == {"If"}]
+    for_wraps = [w for w in wraps if w[2] and w[2] <= {"For", "AsyncFor"}]
+    if not if_wraps or not for_wraps:
+        raise AnalysisError("%s: the inside-out construction (block = [ast.If/For(..., body=block)]) was not recognised" % fi.qual)
+    wrap_ids = set(id(n.ast) for n, call, kinds in for_wraps)
+    gen_loops = [(h, it) for h, it in loops if any(s == GENS for s in subterms(it)) and isinstance(h.stmt, ast.For) and any(id(sub) in wrap_ids for st in h.stmt.body for sub in ast.walk(st))]
+    bad = None
+    if len(gen_loops) != 1:
+        bad = (fi.node, "no single loop walks the `for` clauses of the generator")
+    else:
+        gh, git = gen_loops[0]
+        if not any(s == ("call", ("builtin", "reversed"), (GENS,), ()) for s in subterms(git)):
+            bad = (gh.stmt, "the block is built inside-out but the `for` clauses are walked front to back (%s): the loops of the tracing function nest the wrong way round" % show(git, 60))
+    run.check(bad is None, rule, fi.qual + ":for-clauses", "the `for` clauses are wrapped from the innermost outwards (reversed(generators))", bad[1] if bad else "", fi.loc(bad[0]) if bad else fi.loc(), None, "for-clauses")
+    if bad is not None:
+        return
+    inside = set(id(sub) for st in gh.stmt.body for sub in ast.walk(st))
+    if_loops = [(h, it) for h, it in loops if id(h.stmt) in inside and any(s[0] == "attr" and s[2] == "ifs" for s in subterms(it))]
+    bad = None
+    if len(if_loops) != 1:
+        bad = (gh.stmt, "no single loop walks the `if` filters of a clause")
+    else:
+        ih, iit = if_loops[0]
+        ifs = [s for s in subterms(iit) if s[0] == "attr" and s[2] == "ifs"][0]
+        if not any(s == ("call", ("builtin", "reversed"), (ifs,), ()) for s in subterms(iit)):
+            bad = (ih.stmt, "the filters of one `for` clause are wrapped front to back (%s): in the tracing function the LAST filter becomes the outermost test, so it is evaluated on items an earlier filter excludes" % show(iit, 60))
+        else:
+            # the filter wrapped is the loop variable; it happens inside this loop
+            body_ids = set(id(sub) for st in ih.stmt.body for sub in ast.walk(st))
+            for n, call, kinds in if_wraps:
+                if id(n.ast) not in body_ids:
+                    bad = (n.stmt, "an ast.If wrapper is built outside the loop over the filters")
+                else:
+                    test = [kw.value for kw in call.keywords if kw.arg == "test"]
+                    if not test or strip_sites(flow.term(test[0], n)) != ("elem", iit):
+                        bad = (n.stmt, "the test of the generated `if` is not the filter of this step")
+            # filters first, then the `for` of the clause
+            dom = flow.cfg.dominators()
+            for n, call, kinds in for_wraps:
+                if id(n.ast) not in inside:
+                    bad = (n.stmt, "an ast.For wrapper is built outside the loop over the clauses")
+                elif id(n.ast) in body_ids or ih.id not in dom[n.id]:
+                    bad = (n.stmt, "the `for` of a clause is wrapped before its filters: the filters would run outside the loop that binds their variables")
+                else:
+                    kws = dict((kw.arg, strip_sites(flow.term(kw.value, n))) for kw in call.keywords if kw.arg in ("target", "iter"))
+                    comp = ifs[1]
+                    if kws.get("target") != ("attr", comp, "target") or kws.get("iter") != ("attr", comp, "iter"):
+                        bad = (n.stmt, "the generated loop does not take target and iterable from the clause being translated")
+    run.check(bad is None, rule, fi.qual + ":filters", "per clause: filters wrapped innermost-last (reversed(ifs)), then the clause's `for` around them", bad[1] if bad else "", fi.loc(bad[0]) if bad else fi.loc(), None, "filters")
